@@ -72,15 +72,31 @@ func RunSeq(r *Run, spec SeqSpec) {
 			}
 		}
 		lstart := time.Now()
-		results := pool.Do(tasks, nil)
+		decoded := make([]*SeqResult, len(tasks))
+		stoppedEarly := ""
+		results := pool.DoStop(tasks, func(i int, res Result) bool {
+			rr, ok := decodeSeq(r, spec, res, hists[i])
+			if ok {
+				decoded[i] = &rr
+			}
+			if r.ViolationCount() >= 40 {
+				stoppedEarly = "40 distinct violations found"
+				return true
+			}
+			if spec.Budget > 0 && time.Since(start) > spec.Budget+spec.Budget/2 {
+				stoppedEarly = "time budget exceeded inside a level"
+				return true
+			}
+			return false
+		})
 		var next [][]json.RawMessage
 		newStates := 0
 		ltrans := 0
-		for i, res := range results {
-			rr, ok := decodeSeq(r, spec, res, hists[i])
-			if !ok || rr.Skip {
+		for i := range results {
+			if decoded[i] == nil || decoded[i].Skip {
 				continue
 			}
+			rr := *decoded[i]
 			ltrans++
 			checks += rr.Checks
 			if rr.Outcome != "" {
@@ -97,6 +113,10 @@ func RunSeq(r *Run, spec SeqSpec) {
 		}
 		transitions += ltrans
 		states += newStates
+		if stoppedEarly != "" {
+			r.Cap(fmt.Sprintf("%s: depth %d stopped early: %s", spec.Name, depth, stoppedEarly))
+			break
+		}
 		depthDone = depth
 		levelStats = append(levelStats, map[string]interface{}{"depth": depth, "executions": len(tasks), "transitions": ltrans,
 			"new_states": newStates, "wall_s": time.Since(lstart).Seconds()})
@@ -123,6 +143,9 @@ func RunSeq(r *Run, spec SeqSpec) {
 
 func decodeSeq(r *Run, spec SeqSpec, res Result, hist []json.RawMessage) (SeqResult, bool) {
 	var rr SeqResult
+	if res.Err == "skipped" {
+		return rr, false
+	}
 	if res.Err != "" {
 		r.Cap(fmt.Sprintf("%s: worker problem (%s) on history %s", spec.Name, res.Err, histString(hist)))
 		return rr, false
